@@ -641,12 +641,14 @@ func genHWSession(t *rapid.T, nOps int) *hwSession {
 		}
 	}
 	for len(s.Ops) < nOps {
-		var live, undecoded, plannableDecs []int
+		var live, undecoded, liveDecoded, plannableDecs []int
 		for i, p := range pays {
 			if !p.released {
 				live = append(live, i)
 				if !p.decoded {
 					undecoded = append(undecoded, i)
+				} else {
+					liveDecoded = append(liveDecoded, i)
 				}
 			}
 		}
@@ -657,7 +659,7 @@ func genHWSession(t *rapid.T, nOps int) *hwSession {
 		}
 		choices := []string{"marshal", "marshal", "marshal", "marshal", "marshal"}
 		if len(live) > 0 {
-			choices = append(choices, "decode", "decode", "decode", "decode", "release")
+			choices = append(choices, "decode", "decode", "decode", "decode", "release", "release")
 		}
 		if len(plannableStmts) > 0 {
 			choices = append(choices, "planSource")
@@ -706,7 +708,12 @@ func genHWSession(t *rapid.T, nOps int) *hwSession {
 			decs = append(decs, dec{kind: pays[pi].kind, plannable: pays[pi].plannable})
 			s.Ops = append(s.Ops, op)
 		case "release":
-			pi := rapid.SampledFrom(live).Draw(t, "payload")
+			// mostly a payload whose statement some receiver still works with
+			from := live
+			if len(liveDecoded) > 0 && rapid.IntRange(0, 3).Draw(t, "releaseDecoded") != 0 {
+				from = liveDecoded
+			}
+			pi := rapid.SampledFrom(from).Draw(t, "payload")
 			pays[pi].released = true
 			s.Ops = append(s.Ops, hwOp{Kind: "release", A: pi})
 		case "planSource":
